@@ -248,6 +248,17 @@ pub fn run_line(line: &str, out: &mut String) {
         if !wk.is_empty() {
             line.push_str(&format!(" w{}", wk.join(",")));
         }
+        // C19 read literally (see m_obs.rs); in this flavour only the handle and weak counts: the
+        // subscriber count is the recorded finding async_subscriber_double_count
+        if name == "counts" {
+            if let Some(nums) = text.strip_prefix('c') {
+                let n: Vec<usize> = nums.split('/').map(|x| x.parse().unwrap_or(usize::MAX)).collect();
+                let n_owners = if unique.is_some() { 1 } else { owners.len() };
+                if n.len() != 4 || n[0] != n_owners || n[3] != weaks.len() {
+                    line.push_str(" ok:inventory=0");
+                }
+            }
+        }
         match &expect {
             None => line.push_str(" ok:spec=0"),
             Some((t, wakes_all)) => {
